@@ -43,12 +43,18 @@ def extract_block(prog, qname: str, new_name: str, start_pred, n_stmts_pred, par
     return q, [ast.unparse(s) for s in found]
 
 
-def extract_loop_body(prog, qname: str, new_name: str, loop_pred, params: list[str]):
+def extract_loop_body(prog, qname: str, new_name: str, loop_pred, params: list[str], outs: list[str] | None = None,
+                      yields_to: str | None = None):
     """The body of the first `for` loop of `qname` satisfying `loop_pred`, as a function of one iteration.
 
     The statements are deep copies of the current AST.  The only rewriting is the one that turns "one iteration of a loop"
     into "one call": a `continue` / `break` that belongs to THIS loop (not to a loop nested inside it) becomes
-    `return 'continue'` / `return 'break'`, and falling off the end becomes `return 'next'`.  The loop variable is a parameter."""
+    `return 'continue'` / `return 'break'`, and falling off the end becomes `return 'next'`.  The loop variable is a parameter.
+
+    Two further mechanical rewritings, used for loops of generator functions that carry state in rebound locals:
+    `outs` - the locals the iteration rebinds are returned with the verdict (`return ('next', out1, out2)`), they are parameters too;
+    `yields_to` - a statement `yield e` of THIS loop's body becomes `<yields_to>.append(e)`: the values the generator hands out
+    during the iteration, in order, appended to a list parameter (the consumer's interleaving is not modelled)."""
     fn = prog.func(qname)
     target = None
     for node in ast.walk(fn):
@@ -66,11 +72,24 @@ def extract_loop_body(prog, qname: str, new_name: str, loop_pred, params: list[s
         def visit_FunctionDef(self, n):
             return n
         def visit_Continue(self, n):
-            return ast.copy_location(ast.Return(value=ast.Constant(value="continue")), n)
+            return ast.copy_location(ast.Return(value=verdict("continue")), n)
         def visit_Break(self, n):
-            return ast.copy_location(ast.Return(value=ast.Constant(value="break")), n)
+            return ast.copy_location(ast.Return(value=verdict("break")), n)
+        def visit_Expr(self, n):
+            if yields_to and isinstance(n.value, ast.Yield) and n.value.value is not None:
+                call = ast.Call(func=ast.Attribute(value=ast.Name(id=yields_to, ctx=ast.Load()), attr="append", ctx=ast.Load()),
+                                args=[n.value.value], keywords=[])
+                return ast.copy_location(ast.Expr(value=call), n)
+            return n
 
-    body = [T().visit(copy.deepcopy(s)) for s in target.body] + [ast.Return(value=ast.Constant(value="next"))]
+    def verdict(word):
+        if not outs:
+            return ast.Constant(value=word)
+        return ast.Tuple(elts=[ast.Constant(value=word)] + [ast.Name(id=o, ctx=ast.Load()) for o in outs], ctx=ast.Load())
+
+    body = [T().visit(copy.deepcopy(s)) for s in target.body] + [ast.Return(value=verdict("next"))]
+    if yields_to and any(isinstance(x, (ast.Yield, ast.YieldFrom)) for st in body for x in ast.walk(st)):
+        raise KeyError(f"extraction from {qname}: a yield of the loop body is not a plain `yield e` statement (contract attachment lost)")
     f = ast.FunctionDef(name=new_name, args=ast.arguments(posonlyargs=[], args=[ast.arg(arg=p) for p in params], kwonlyargs=[],
                                                           kw_defaults=[], defaults=[]), body=body, decorator_list=[], type_params=[])
     ast.fix_missing_locations(f)
